@@ -46,6 +46,15 @@ def agg_status(insts):
     return "discharged"
 
 
+def _claim_text(prop):
+    try:
+        from contracts.manifest_info import CLAIMED
+        c = CLAIMED.get(prop, {})
+        return (c.get("text", "") + "  NOTE: " + c.get("note", "")).strip()
+    except Exception:  # noqa
+        return ""
+
+
 def _model_scan(reg):
     out = []
     for name, f in sorted(reg.models.items()):
@@ -262,7 +271,7 @@ def main(argv=None):
         "undecided": [u[2].get("msg") for u in undecided],
         "units": [{"unit": r["unit"], "pass": r["pass_name"], "paths": r.get("paths"), "wall_s": r["wall_s"],
                    "n": len(r["obligations"]), "error": r["error"]} for r in reports],
-        "explanation": info.get("explanation", ""),
+        "explanation": info.get("explanation") or _claim_text(prop),
         # callees that have neither a contract nor a model were given the contract `true` (any result, any exception, any effect)
         "uncontracted_callees": sorted({u for r in reports for u in (r.get("uncontracted") or [])}),
         # mechanical scan of the sidecars: postconditions assumed at call sites without being checked in the callee, and the
